@@ -134,6 +134,12 @@ class Module:
         parts.append(self.imports.get(head, head if head not in self.funcs and head not in self.classes else f'{self.name}.{head}'))
         return '.'.join(reversed(parts))
 
+    def rebinds_global(self, name: str) -> bool:
+        """some function declares `global name` (the module-level binding is not a constant)"""
+        if not hasattr(self, '_globals_declared'):
+            self._globals_declared = {n for g in ast.walk(self.tree) if isinstance(g, ast.Global) for n in g.names}
+        return name in self._globals_declared
+
     def is_library(self, dotted: str | None) -> bool:
         return bool(dotted) and not dotted.startswith(PKG + '.')
 
